@@ -28,14 +28,24 @@ PHASES = [(0.0, 0.0), (0.3, 0.5), (0.5, 0.8), (0.8, 0.3)]
 SHAPE = (96, 100)
 
 
+# (row, col) placements relative to the image: distance d from the named edge(s), -d means from the far edge
+EDGE_POS = [("low_row", 2.35, None), ("low_row5", 5.2, None), ("high_row", -2.6, None), ("low_col", None, 2.4), ("low_col5", None, 4.7),
+            ("high_col", None, -2.3), ("corner_ll", 3.3, 3.6), ("corner_ul", -3.4, 3.2), ("corner_lr", 3.1, -3.5), ("corner_ur", -3.2, -3.3)]
+
+
 def axes(tier, seed):
-    return dict(size_px=SIZES, phase=PHASES, stage=[1, 2, 3], regroup=[True, False], ratio=[None, 1], permutations="all (24)",
+    return dict(edge_positions=[e[0] for e in EDGE_POS], size_px=SIZES, phase=PHASES, stage=[1, 2, 3], regroup=[True, False], ratio=[None, 1], permutations="all (24)",
                 bad_rows=["off_left", "off_right", "off_top", "off_bottom", "on_nan"], psf_columns=["present", "absent"])
 
 
 def cases(tier, seed):
     for si, ph, stage in itertools.product(range(len(SIZES)), range(len(PHASES)), [1, 2, 3]):
         yield "single", dict(size=si, phase=ph, stage=stage)
+    # sources close to every edge and corner of the image (cut-outs clipped by the image boundary)
+    for edge in range(len(EDGE_POS)):
+        for si in (0, 3, 7):
+            for stage in (1, 2, 3):
+                yield "edges", dict(edge=edge, size=si, stage=stage)
     for stage in (1, 2, 3):
         for regroup in (True, False):
             yield "permutations", dict(stage=stage, regroup=regroup)
@@ -143,6 +153,32 @@ def ev_single(case, ctx):
             continue
         ctx.outcome("n=%d" % len(out))
         check_against_truth(out, cat, truth, hdr, case["stage"], ctx, sig, sig)
+
+
+def ev_edges(case, ctx):
+    d = os.environ["VERIF_SCRATCH"]
+    hdr = hdr_()
+    rows, cols = SHAPE
+    name, dr, dc = EDGE_POS[case["edge"]]
+    a = SIZES[case["size"]]
+    r = (rows / 2.0 + 3.3) if dr is None else (dr if dr > 0 else rows - 1 + dr)
+    c = (cols / 2.0 - 2.7) if dc is None else (dc if dc > 0 else cols - 1 + dc)
+    srcs = [skygauss.source_at_pixel(hdr, r, c, 1.0, a, 3.2, 35.0),
+            skygauss.source_at_pixel(hdr, rows / 2.0 - 11.0, cols / 2.0 + 9.5, 0.7, 5.5, 3.3, -20.0)]
+    cat = [to_component(s_, hdr, k) for k, s_ in enumerate(srcs)]
+    truth = {c_.uuid: s_ for c_, s_ in zip(cat, srcs)}
+    f = os.path.join(d, "c05e.fits")
+    scenes.write_image(f, hdr, skygauss.render(hdr, SHAPE, srcs))
+    sig = "edges:%s,size=%g,stage=%d" % (name, a, case["stage"])
+    ctx.count("edges")
+    ctx.nontrivial(sig)
+    try:
+        out = run(f, cat, stage=case["stage"])
+    except Exception as e:
+        ctx.violation("priorized fit raised %r (%s)" % (e, sig), "raise|" + sig)
+        return
+    ctx.outcome("edge_n=%d" % len(out))
+    check_against_truth(out, cat, truth, hdr, case["stage"], ctx, sig, sig)
 
 
 def base_catalogue(hdr):
@@ -287,4 +323,4 @@ def ev_many(case, ctx):
 
 
 def evaluate(clause, case, ctx):
-    dict(single=ev_single, permutations=ev_permutations, badrows=ev_badrows, nopsf=ev_nopsf, many=ev_many)[clause](case, ctx)
+    dict(single=ev_single, edges=ev_edges, permutations=ev_permutations, badrows=ev_badrows, nopsf=ev_nopsf, many=ev_many)[clause](case, ctx)
